@@ -123,6 +123,11 @@ func bigFromBytes(x ssa.Value) (ssa.Value, bool) {
 }
 
 func checkC05(p *Program, r *Report) {
+	sharedStateRule(p, r, NewEffects(p), "C05.shared", []string{"hdkeychain/extendedkey.go", "base58/base58.go", "base58/base58check.go"})
+	r.Floor("C05.shared", 10)
+	// a memoised serialisation must follow every change of the fields it was computed from (SetNet, Zero)
+	memoCoherence(p, r, "C05.memo", "hdkeychain", "ExtendedKey", nil)
+	r.Floor("C05.memo", 0)
 	r.Explain = "C05.len: every accepting return of NewKeyFromString knows len(decoded) == 82 (78-byte payload + 4-byte checksum). C05.checksum: it lies behind a " +
 		"full 4-byte SHA256d comparison over decoded[:len−4]. C05.valid: the accepting path is split by the first key byte; on the private arm both scalar " +
 		"range tests (Cmp(N) ≥ 0, Sign() == 0) reject and exactly the leading zero byte is stripped; on the public arm the curve-point parser succeeded on " +
